@@ -241,12 +241,12 @@ func sortOf(t types.Type) smt.Sort {
 		case types.Float32, types.Float64, types.UntypedFloat:
 			return sortFloat
 		case types.UnsafePointer:
-			return smt.Int
+			return refSort
 		case types.UntypedNil:
-			return smt.Int
+			return refSort
 		}
 	case *types.Pointer, *types.Map, *types.Chan, *types.Signature:
-		return smt.Int
+		return refSort
 	case *types.Slice:
 		return sortSlice
 	case *types.Interface:
@@ -272,3 +272,7 @@ func derefType(t types.Type) types.Type {
 	}
 	panic(fmt.Sprintf("derefType: %v is not a pointer", t))
 }
+
+// refSort is the sort of addresses, region identifiers and type tags:
+// 64-bit vectors (0 = nil; local objects get negative constants).
+var refSort = smt.BV(64)
